@@ -12,10 +12,11 @@ let squeeze_all v st outs =
   String.concat "," acc
 
 (* a trailing RE:<seed> token asks the implementation to reach the operation through <op>_reinit after a prior
-   history on the same object; the model's answer is the same by definition (reinit = fresh init) *)
+   history on the same object; the model's answer is the same by definition (reinit = fresh init).
+   A trailing AK token (HM / HMO) asks the implementation to write the digest over the key buffer; the model passes by value *)
 let rec process (toks : string list) : string =
   let n = List.length toks in
-  if n > 0 && (let l = List.nth toks (n - 1) in String.length l > 3 && String.sub l 0 3 = "RE:") then
+  if n > 0 && (let l = List.nth toks (n - 1) in (String.length l > 3 && String.sub l 0 3 = "RE:") || (n > 4 && l = "AK")) then
     process (List.filteri (fun i _ -> i < n - 1) toks)
   else
   match toks with
@@ -60,10 +61,14 @@ let rec process (toks : string list) : string =
     hex_of_bytes (take (int_of_string n) okm)
   | ["PB"; "xof"; pw; salt; c; n] -> hex_of_bytes (x_pbkdf2 (bytes_of_hex pw) (bytes_of_hex salt) (nat c) (nat n))
   | ["PB"; "hmac"; pw; salt; c; n] -> hex_of_bytes (x_pbkdf2_hmac (bytes_of_hex pw) (bytes_of_hex salt) (nat c) (nat n))
+  | ["PBT"; kind; pw; salt; c; n; _ms] ->
+    (* the model's answer for a count the call cannot complete in the allotted time (decimal strings of 10 digits and more, i.e. >= 10^9):
+       still iterating.  For small counts the call is done at once and returns the PB answer. *)
+    if String.length c >= 10 then "TIMEOUT" else "DONE " ^ process ["PB"; kind; pw; salt; c; n]
   | ["PBSPEC"; "xof"; pw; salt; c; n] -> hex_of_bytes (x_spec_pbkdf2 (bytes_of_hex pw) (bytes_of_hex salt) (nat c) (nat n))
   | ["PBSPEC"; "hmac"; pw; salt; c; n] -> hex_of_bytes (x_spec_pbkdf2_hmac (bytes_of_hex pw) (bytes_of_hex salt) (nat c) (nat n))
   | _ -> "UNSUPPORTED"
 
 let () = List.iter (fun n -> register n process)
     ["PRF"; "PRFSPEC"; "MAC"; "MACV"; "PRFS"; "PRFSL"; "PRFSSPEC"; "HM"; "HMO"; "HMSPEC"; "KM"; "KMO"; "KMSPEC"; "KD"; "KDO"; "KDSPEC";
-     "HK"; "HKO"; "HKSPEC"; "PB"; "PBSPEC"]
+     "HK"; "HKO"; "HKSPEC"; "PB"; "PBT"; "PBSPEC"]
